@@ -24,7 +24,7 @@ run)
   BIN=$1; PATCH=$2; shift 2
   cd $R && git checkout -q -- . && git apply "$PATCH" || { echo "patch does not apply"; exit 3; }
   ( cd $H && cargo build --bin $BIN > $L/build.log 2>&1 ) || { grep -E "^error" -A6 $L/build.log | head -20; echo "harness build failed"; cd $R && git checkout -q -- .; exit 4; }
-  case "$BIN" in c09|c10|c11|c19|c20)
+  case "$BIN" in c09|c10|c11|c12|c19|c20)
     ( cd /verif && cargo +1.92 build --manifest-path $R/Cargo.toml -p warcraft-rs -p storm-ffi --target-dir $T-repo --offline 2>&1 | grep -E "^error" -A6 | head -10 )
     export VERIF_CLI=$T-repo/debug/warcraft-rs VERIF_LIBSTORM=$T-repo/debug/libstorm.so ;;
   esac
